@@ -113,26 +113,12 @@ def renderRetE : Res RetE → String
 
 def liftRetE {α} (f : α → RetE) (m : MT α) : MT RetE := do let a ← m; pure (f a)
 
-/-- a connect whose TCP connection cannot be established (name resolution fails, connection refused): the prefix of
-    `connectT` up to that point - argument checks, the open connection abandoned, clean state - then the error.
-    (The model's `connectT` assumes that the connection is established; this case is modelled here, in the driver.) -/
-def failedConnectT (cred : Option (Bytes × Bytes)) : MT RetE := do
-  match cred with
-  | some (u, p) => let _ ← lift (mkCmd "USER" (some u)); let _ ← lift (mkCmd "PASS" (some p)); pure ()
-  | none => pure ()
-  let w0 ← getT
-  if w0.base.connected then
-    emitT (.ev w0.ctlTls .ctlClose)
-    modifyT fun w => { w with base := { w.base with connected := false } }
-  modifyT fun w => { w with ctlTls := false, ctlSsl := false }
-  throwT
-
 def e2eProgram (op : SOp) (w : WorldT) (tcpOk : Bool := true) : Option (MT RetE × WorldT) := do
   let a := op.args
   match op.name with
   | "connect" =>
     let cred ← if a.length ≥ 4 then (do let u ← hexArg a 2; let p ← hexArg a 3; pure (some (u, p))) else pure none
-    if !tcpOk then pure (failedConnectT cred, w) else
+    if !tcpOk then pure (liftRetE .replies (connectFailT cred), w) else
     pure (liftRetE .replies (connectT (if w.base.v6 then str "::1" else str "127.0.0.1") 0 cred), w)
   | "login" => do let u ← hexArg a 0; let p ← hexArg a 1; pure (liftRetE .replies (loginT u p), w)
   | "logout" => pure (liftRetE .reply logoutT, w)
